@@ -169,7 +169,43 @@ class Check(Property):
                     cs.append(self.mk(layer, t, f, a, ks=ks))
                 elif f == "rename":
                     cs.append(self.mk(layer, t, f, a, k=rng.choice(NAMES), k2=rng.choice(NAMES + ["candela"])))
+        # column echelon form and Buckingham pi
+        npi = 250 if not thorough else 3000
+        for _ in range(npi):
+            nq, nd = rng.randint(1, 5), rng.randint(1, 4)
+            m = [[frac_s(Fraction(rng.choice([0, 0, 1, -1, 2, -2, 3]), rng.choice([1, 1, 1, 2, 3]))) for _ in range(nq)]
+                 for _ in range(nd)]
+            self.bump("cef")
+            cs.append({"layer": "cef", "t": "fraction", "f": "cef", "a": [], "matrix": m,
+                       "ops": [{"op": "pi", "f": "cef", "matrix": m}]})
+        base = ["meter", "second", "gram", "ampere", "kelvin"]
+        for _ in range(npi):
+            nq = rng.randint(2, 5)
+            quants = {}
+            for i in range(nq):
+                k = rng.randint(1, 3)
+                us = rng.sample(base[:rng.randint(2, 5)], min(k, 2))
+                quants[f"Q{i}"] = {u_: frac_s(Fraction(rng.choice([1, -1, 2, -2, 3, 1, 1]), rng.choice([1, 1, 1, 2]))) for u_ in us}
+            self.bump("pi")
+            cs.append({"layer": "pi", "t": "float", "f": "pi", "a": [], "quants": quants, "ops": []})
         return cs
+
+    # ---------------------------------------------------------------- pi theorem helpers
+    @staticmethod
+    def unit_str(d):
+        return " * ".join(f"{k}**({Fraction(v).numerator}/{Fraction(v).denominator})" for k, v in d.items())
+
+    def pi_setup(self, c):
+        """replicates pi_theorem's preprocessing to obtain its dimension (row) order"""
+        u = reg("float")
+        quant, dimensions = [], set()
+        for name, d in c["quants"].items():
+            dims = u.get_dimensionality(u.parse_units(self.unit_str(d)))
+            quant.append((name, dims))
+            dimensions = dimensions.union(dims.keys())
+        dimensions = list(dimensions)
+        matrix = [[Fraction(dim_[d]).limit_denominator(1000) if d in dim_ else Fraction(0) for _, dim_ in quant] for d in dimensions]
+        return u, quant, dimensions, matrix
 
     # ---------------------------------------------------------------- implementation side
     def apply(self, c):
@@ -195,6 +231,17 @@ class Check(Property):
         raise ValueError(f)
 
     def impl(self, c):
+        if c["layer"] == "cef":
+            from pint.util import column_echelon_form
+
+            def run_cef():
+                m = [[Fraction(x) for x in row] for row in c["matrix"]]
+                e, i, sw = column_echelon_form(m, ntype=Fraction)
+                return [[[frac_s(x) for x in r] for r in e], [[frac_s(x) for x in r] for r in i], list(sw)]
+            return [capture(run_cef)]
+        if c["layer"] == "pi":
+            return []
+
         def run():
             r = self.apply(c)
             if isinstance(r, bool):
@@ -204,6 +251,8 @@ class Check(Property):
         return [capture(run)]
 
     def expect(self, c, model_outs):
+        if c["layer"] in ("cef", "pi"):
+            return model_outs
         o = model_outs[0]
         if "ok" in o and isinstance(o["ok"], list) and c["layer"] != "uc":
             return [{"ok": sorted(o["ok"])}]
@@ -216,6 +265,8 @@ class Check(Property):
         return canon(io) == canon(mo)
 
     def nontrivial(self, c, io):
+        if c["layer"] in ("cef", "pi"):
+            return canon(c.get("matrix") or c.get("quants"))
         o = io[0] if isinstance(io, list) else io
         if "ok" in o and o["ok"] not in (c["a"], c.get("b"), True, False, []):
             return canon([c["layer"], c["t"], c["f"], c["a"], c.get("b"), c.get("r"), c.get("k"), c.get("ks")])
@@ -224,7 +275,73 @@ class Check(Property):
         return None
 
     # ---------------------------------------------------------------- oracle: the property itself
+    @staticmethod
+    def rank(rows):
+        m = [list(r) for r in rows]
+        rk, col, ncol = 0, 0, len(m[0]) if m else 0
+        while rk < len(m) and col < ncol:
+            piv = next((i for i in range(rk, len(m)) if m[i][col] != 0), None)
+            if piv is None:
+                col += 1
+                continue
+            m[rk], m[piv] = m[piv], m[rk]
+            for i in range(len(m)):
+                if i != rk and m[i][col] != 0:
+                    fct = m[i][col] / m[rk][col]
+                    m[i] = [a_ - fct * b_ for a_, b_ in zip(m[i], m[rk])]
+            rk += 1
+            col += 1
+        return rk
+
+    def oracle_pi(self, c):
+        """Buckingham pi: the result is exactly a basis of the dimensionless monomials; plus the
+        model's exact rows (same dimension order) against pint's floats"""
+        v = []
+        u, quant, dimensions, matrix = self.pi_setup(c)
+        strs = {n: self.unit_str(d) for n, d in c["quants"].items()}
+        tag = f"C04 pi_theorem {strs}"
+        try:
+            res = u.pi_theorem(strs)
+        except Exception as exc:  # noqa: BLE001
+            return [f"{tag}: raised {type(exc).__name__}: {exc}"]
+        names = [n for n, _ in quant]
+        vecs = []
+        for r in res:
+            vec = [Fraction(r.get(n, 0)).limit_denominator(10 ** 6) for n in names]
+            vecs.append(vec)
+            for drow, dname in zip(matrix, dimensions):
+                tot = sum(a_ * b_ for a_, b_ in zip(drow, vec))
+                if tot != 0:
+                    v.append(f"{tag}: returned group {r} is not dimensionless ({dname} exponent {tot})")
+                    break
+            if any(x == 0 for x in r.values()):
+                v.append(f"{tag}: zero exponent kept in {r}")
+        nullity = len(names) - self.rank(matrix) if matrix else len(names)
+        if len(res) != nullity:
+            v.append(f"{tag}: {len(res)} groups returned, the space of dimensionless monomials has dimension {nullity}")
+        elif vecs and self.rank(vecs) != len(vecs):
+            v.append(f"{tag}: returned groups are not independent")
+        # model rows for the same matrix
+        try:
+            mo = core.Driver().run([{"op": "pi", "f": "pi", "matrix": [[frac_s(x) for x in row] for row in matrix]}])[0]
+            rows = [[Fraction(x) for x in r] for r in mo.get("ok", [])]
+            if len(rows) == len(vecs):
+                for mr, r in zip(rows, res):
+                    for n, x in zip(names, mr):
+                        got = r.get(n, 0)
+                        if abs(float(x) - float(got)) > 1e-9 * max(1.0, abs(float(x))):
+                            v.append(f"{tag}: group {r} differs from the exact elimination result "
+                                     f"{dict(zip(names, map(str, mr)))}")
+                            break
+        except core.Infra:
+            pass
+        return v
+
     def oracle(self, c):
+        if c["layer"] == "pi":
+            return self.oracle_pi(c)
+        if c["layer"] == "cef":
+            return []
         layer, t, f = c["layer"], c["t"], c["f"]
         v = []
         A = {k: Fraction(x) for k, x in c["a"]}
